@@ -460,6 +460,45 @@ func runC15(c *Ctx, r *Report) {
 		}
 	}
 	r.Floor("C15.R3", 2)
+	// R6: `()` at the end of a line is the start of a lambda: where parseGroupedExpression finds `)` right after `(`
+	// and the line ends there, it asks for more (continuationNeeded = true) instead of parsing `)` as an expression
+	r.Rule("C15.R6", "an empty parameter list that ends the line asks for the rest: parseGroupedExpression has a block under curTokenIs(RPAREN) and peekTokenIs(EOL) that sets continuationNeeded")
+	{
+		fn := c.SSAFn(c.Fn("parser", "Parser.parseGroupedExpression"))
+		curIs, peekIs := c.Fn("parser", "Parser.curTokenIs"), c.Fn("parser", "Parser.peekTokenIs")
+		rparen, _ := constInt64(c.Const("token", "RPAREN"))
+		eol, _ := constInt64(c.Const("token", "EOL"))
+		parT := c.TypeNamed("parser", "Parser")
+		isTest := func(v ssa.Value, f *types.Func, k int64) bool {
+			call, ok := v.(*ssa.Call)
+			if !ok || !isCallTo(call, f) || len(call.Common().Args) < 2 {
+				return false
+			}
+			kk, ok := constInt(call.Common().Args[1])
+			return ok && kk == k
+		}
+		asks := false
+		eachInstr(fn, func(in ssa.Instruction) {
+			st, ok := in.(*ssa.Store)
+			if !ok || !isFieldAddrOf(st.Addr, parT, "continuationNeeded") {
+				return
+			}
+			hasCur, hasPeek := false, false
+			for _, cc := range controlling(st.Block()) {
+				if cc.Edge == 0 && isTest(cc.Cond, curIs, rparen) {
+					hasCur = true
+				}
+				if cc.Edge == 0 && isTest(cc.Cond, peekIs, eol) {
+					hasPeek = true
+				}
+			}
+			if hasCur && hasPeek {
+				asks = true
+			}
+		})
+		r.Check(asks, "C15.R6", ssaFuncName(fn), "`()` at the end of a line asks for the rest of the lambda", c.Pos(fn.Pos()),
+			"when a line ends right after an empty `()` the parser goes on to parse `)` as an expression and reports `no prefix parse function`: f(() is rejected in line mode although it is a prefix of f(() => 1), so a program typed line by line fails where the same text at once is accepted")
+	}
 
 	// shared C09.R7: each input's macro bodies are evaluated under that input's context
 	if !r.Sub {
